@@ -373,7 +373,7 @@ impl Prop for C17 {
 		]
 	}
 	fn expected_probes(&self) -> Vec<&'static str> {
-		vec!["fault_truncate", "fault_sync_byte", "fault_count_rewrite", "fault_size_rewrite", "fault_snappy_crc", "fault_snappy_payload", "fault_single_byte", "io_fault_fired", "io_error_surfaced", "io_interrupted_absorbed"]
+		vec!["long_file_of_many_blocks", "long_file_block_above_65535_objects", "long_file_run_of_blocks_without_objects", "fault_truncate", "fault_sync_byte", "fault_count_rewrite", "fault_size_rewrite", "fault_snappy_crc", "fault_snappy_payload", "fault_single_byte", "io_fault_fired", "io_error_surfaced", "io_interrupted_absorbed"]
 	}
 	fn budget(&self, tier: Tier) -> (u64, u64) {
 		match tier {
